@@ -1,10 +1,12 @@
 import SqfModel.Lemmas.ConfigInv
+import SqfModel.Lemmas.CfgRound
 /-!
 # C15 — config tree: values read back, inheritance lookup, merge/delete/append, acyclic
 
 The theorems are about the model of `confighost.h` / `apply_to_confighost` / the config operators in
-`SqfModel/Config.lean`; the correspondence check (`vlib/props/c15.py`) ties that model to the
-implementation on generated config texts and queries.
+`SqfModel/Config.lean` and about the model of the config tokenizer and grammar in `SqfModel/CfgText.lean`
+(section 7: a config text is read as the tree it denotes); the correspondence check (`vlib/props/c15.py`) ties both
+models to the implementation on generated config texts and queries.
 -/
 set_option linter.unusedSimpArgs false
 set_option linter.unusedVariables false
@@ -308,5 +310,80 @@ example : lookupInh sample sample.fuel (some 5) n!"y" = some (some 3) := by deci
 example : lookupInh sample sample.fuel (some 5) n!"x" = some none := by decide
 example : (sample.get 5).vec.length = 2 := by decide
 example : (sample.get 5).inherited = some 1 := by decide
+
+/-! ## 7. A config text is read as the tree it denotes (tokenizer and grammar, `CfgText.lean`)
+
+`cfgText ns` is the canonical text of the statements `ns` (every token followed by one blank, every statement by
+`;`, array elements separated by `,`).  For every tree — any number of classes, any nesting of classes and arrays —
+whose names are identifiers and whose literals are numbers (sign, digits, fraction), hexadecimal numbers, quoted
+strings (any bytes, quotes doubled) or single words, the tokenizer and the grammar deliver exactly `ns`; loading the
+text is loading the tree, to which sections 1–5 apply.  Layouts other than the canonical one (arbitrary white space,
+comments, unquoted multi-word values, numbers with exponents) are covered by the correspondence check only. -/
+
+open Sqf.CfgText in
+/-- **the text of a tree parses to that tree** -/
+theorem C15_text_reads_back (ns : List Node) (hshape : shapeTop ns = true) (hok : nodesOk ns = true)
+    (hdeep : tooDeep (toksTop ns) 0 = false) : parseText (cfgText ns) = some ns :=
+  parseText_cfgText ns hshape hok hdeep
+
+open Sqf.CfgText in
+/-- **loading the text is loading the tree**: the host after `parser::parse` on the canonical text is the host
+`apply_to_confighost` builds from the tree, with the same diagnostics -/
+theorem C15_text_loads_tree (h : Host) (ns : List Node) (hshape : shapeTop ns = true) (hok : nodesOk ns = true)
+    (hdeep : tooDeep (toksTop ns) 0 = false) :
+    (parseText (cfgText ns)).map (load h) = some (load h ns) := by
+  rw [C15_text_reads_back ns hshape hok hdeep]; rfl
+
+open Sqf.CfgText in
+/-- the tokens of the text are the tokens it was written from: nothing is merged, split or lost by the tokenizer -/
+theorem C15_text_tokens (ns : List Node) (hok : nodesOk ns = true) : tokens (cfgText ns) = toksTop ns :=
+  tokens_render (toksBody ns) (nodesOk_lexable ns hok)
+
+open Sqf.CfgText in
+/-- the grammar alone: the tokens of a tree are read back as the tree for every fuel that covers its size -/
+theorem C15_grammar_reads_back (ns : List Node) (hshape : shapeTop ns = true) (f : Nat) (hf : sizeNodes ns ≤ f) :
+    pTop f (toksTop ns) = some ns := pTop_toks ns hshape f hf
+
+open Sqf.CfgText in
+/-- **a string reads back as written**: every byte string has a quoted literal (with either quote character) that
+the tokenizer accepts as one string token and whose value, as stored in the tree, is the string -/
+theorem C15_string_literal (q : B) (hq : q = 34 ∨ q = 39) (b : List B) :
+    strOk q (q :: (quoteBody q b ++ [q])) = true ∧ evalLit (.str (q :: (quoteBody q b ++ [q]))) = .str b := by
+  refine ⟨strOk_quoted q hq b, ?_⟩
+  rw [evalLit, fromSqf_quoted q hq b]
+
+/-- non-vacuity: a tree with nested classes, a base class, delete, number, word and hexadecimal literals and nested
+arrays meets the hypotheses -/
+def sampleTree : List Node :=
+  [.cls n!"A" [.field n!"x" (.dec n!"-1.5"), .field n!"w" (.text n!"West"),
+     .fieldArr n!"arr" (.arr [.dec n!"1", .arr [.hex n!"0x1F", .dec n!"2"], .arr []]),
+     .cls n!"Inner" [.del n!"gone"]],
+   .clsExt n!"B" n!"A" [.fieldArrAppend n!"arr" (.arr [.dec n!"3"])],
+   .classDef n!"Fwd", .del n!"Old"]
+
+open Sqf.CfgText in
+example : shapeTop sampleTree = true ∧ nodesOk sampleTree = true ∧ tooDeep (toksTop sampleTree) 0 = false := by
+  decide +kernel
+
+-- … and so does a tree with a string literal that contains a quote
+open Sqf.CfgText in
+example : nodesOk [.cls n!"A" [.field n!"s" (.str (34 :: (quoteBody 34 n!"a\"b" ++ [34])))]] = true := by
+  have h := strOk_quoted 34 (Or.inl rfl) n!"a\"b"
+  simp only [nodesOk, nodeOk, litOk, Bool.and_true, Bool.and_eq_true]
+  exact ⟨by decide +kernel, by decide +kernel, h⟩
+
+open Sqf.CfgText in
+example : cfgText [.cls n!"A" [.field n!"x" (.dec n!"1")]] = n!"class A { x = 1 ; } ; " := by decide +kernel
+
+-- other layouts, evaluated: the tree is shown through its canonical text
+open Sqf.CfgText in
+example : (parseText n!"class A { x = 1; y[] = {1, {2}}; }; class B : A {};").map cfgText =
+    some n!"class A { x = 1 ; y [ ] = { 1 , { 2 } } ; } ; class B : A { } ; " := by decide +kernel
+
+-- the shift-preferring reading: an unquoted value takes everything up to the `;`, a closing brace included
+open Sqf.CfgText in
+example : parseText n!"class A { x = 1 }" = none := by decide +kernel
+open Sqf.CfgText in
+example : (parseText n!"class A { x = a b }; };").map cfgText = some n!"class A { x = a b } ; } ; " := by decide +kernel
 
 end Sqf.Props.C15
